@@ -7,7 +7,7 @@ byte-level snapshots, C01 invariants, C09 reference semantics, C20 render checks
 import numpy as np
 
 DTYPES = ["bool", "int", "float", "str", "fixed", "date", "datetime", "object", "timedelta",
-          "int32", "float32", "bytes", "datetime_s"]
+          "int32", "float32", "bytes", "datetime_s", "uint8"]
 
 STRS = ["", "a", "b", "bb", "Zed", "ünï", "日本", "wide\U0001d4b3", "line\nbreak", "cr\rret", "ls\u2028sep", "x" * 55, "y" * 50 + "z",
         "a b", "é"]
@@ -40,6 +40,8 @@ def build_column(dtype, values):
         return np.array(list(values) + [None], object)[:-1]
     if dtype == "int32":
         return np.array(values, "int32")
+    if dtype == "uint8":
+        return np.array(values, "uint8")
     if dtype == "float32":
         return np.array([np.nan if v is None else v for v in values], "float32")
     if dtype == "bytes":
@@ -58,8 +60,10 @@ def build_column(dtype, values):
 def gen_values(r, dtype, n, na_rate):
     out = []
     for _ in range(n):
-        if dtype not in ("bool", "int", "int32", "bytes") and r.random() < na_rate:
+        if dtype not in ("bool", "int", "int32", "bytes", "uint8") and r.random() < na_rate:
             out.append(None)
+        elif dtype == "uint8":
+            out.append(r.choice([0, 1, 1, 2, 7, 200, 255]))
         elif dtype == "int32":
             out.append(r.choice([0, 1, 1, 2, -3, 7, 2 ** 31 - 1]))
         elif dtype == "float32":
